@@ -31,6 +31,20 @@ def load_sidecars(world, names):
 
 
 # ---- evaluation of contract clauses -----------------------------------------------------------------------------
+def eval_spec_value(ex, f, args):
+    """evaluate a specification function (sidecar) on positional arguments, returning its value"""
+    info = ex.world.funcinfo(f)
+    if info is None:
+        raise Unsupported(f"specification function {f!r} has no indexed source")
+    params = [a.arg for a in info.node.args.args]
+    saved = ex.spec_mode
+    ex.spec_mode += 1
+    try:
+        return ex.run_function(info, dict(zip(params, args)), f.__globals__, None)
+    finally:
+        ex.spec_mode = saved
+
+
 def eval_clause(ex, f, env):
     """evaluate clause function f (a plain function defined in a sidecar) in specification mode; parameters are
     bound by name from env"""
